@@ -476,8 +476,54 @@ func (s *state) load(pv ssa.Value, t types.Type, in ssa.Instruction) Val {
 	return v
 }
 
+// stringHeaderField: pv is &h.Data / &h.Len where h = (*reflect.StringHeader)(unsafe.Pointer(&str))
+// for a string variable str - the idiom that builds a string over raw bytes in place
+func stringHeaderField(pv ssa.Value) (field string, ok bool) {
+	fa, isFA := pv.(*ssa.FieldAddr)
+	if !isFA {
+		return "", false
+	}
+	pt, isPtr := fa.X.Type().Underlying().(*types.Pointer)
+	if !isPtr || !isNamed(pt.Elem(), "reflect", "StringHeader") {
+		return "", false
+	}
+	x := fa.X
+	for i := 0; i < 4; i++ {
+		c, isConv := x.(*ssa.Convert)
+		if !isConv {
+			break
+		}
+		x = c.X
+	}
+	xp, isPtr := x.Type().Underlying().(*types.Pointer)
+	if !isPtr {
+		return "", false
+	}
+	if b, isBasic := xp.Elem().Underlying().(*types.Basic); !isBasic || b.Kind() != types.String {
+		return "", false
+	}
+	return pt.Elem().Underlying().(*types.Struct).Field(fa.Field).Name(), true
+}
+
 func (s *state) store(pv ssa.Value, t types.Type, v Val, in ssa.Instruction) {
 	p := s.get(pv)
+	if fld, ok := stringHeaderField(pv); ok && p.Fld != nil {
+		// the header overlays a string variable: Data/Len are the string's address and length
+		ref, off := p.Fld.ref, p.Fld.off
+		ls := s.u.m.leaves(types.Typ[types.String])
+		base := "E_" + tname(types.Typ[types.String])
+		s.checkFrame([]string{base}, ref, off, in)
+		val := s.u.mat(v, t)
+		switch fld {
+		case "Data":
+			s.wr(base+ls[0].path, ls[0].sort, ref, off, rawRef)
+			s.wr(base+ls[1].path, ls[1].sort, ref, off, val.S[0])
+		case "Len":
+			s.wr(base+ls[2].path, ls[2].sort, ref, off, val.S[0])
+		}
+		s.u.notes["a string is built in place over raw bytes through reflect.StringHeader (its bytes are read from raw memory)"] = true
+		return
+	}
 	if v.Fld != nil {
 		panic(engineErr("address of a scalar field is stored (escapes): " + s.u.eng.posStr(in.Pos())))
 	}
@@ -641,7 +687,11 @@ func (s *state) convert(d *ssa.Convert) Val {
 		if tp, ok := tt.Underlying().(*types.Pointer); ok && fok && fb.Kind() == types.UnsafePointer && !isRawRef(x.S[0]) {
 			if src, ok := d.X.(*ssa.Convert); ok {
 				if sp, ok := src.X.Type().Underlying().(*types.Pointer); ok && !types.Identical(sp.Elem(), tp.Elem()) {
-					if !(isNamed(sp.Elem(), "reflect", "SliceHeader")) {
+					isStr := false
+					if b, ok := sp.Elem().Underlying().(*types.Basic); ok && b.Kind() == types.String && isNamed(tp.Elem(), "reflect", "StringHeader") {
+						isStr = true // (*reflect.StringHeader)(unsafe.Pointer(&str)): stores through it are mapped onto the string (see store)
+					}
+					if !(isNamed(sp.Elem(), "reflect", "SliceHeader")) && !isStr {
 						panic(engineErr(fmt.Sprintf("%s: pointer cast %v -> %v re-types a typed object (not modelled)", u.eng.posStr(d.Pos()), sp, tp)))
 					}
 				}
